@@ -385,6 +385,28 @@ def check_user_errors(F, run):
                 if p.get("k") == "Try" and p["e"] is cur:
                     ok = True
                     break
+                if p.get("k") in ("Block",) and p.get("expr") is cur:
+                    cur = p                      # the value of a block (closure body)
+                    i -= 1
+                    continue
+                if p.get("k") == "Closure" and p.get("body") is cur and i >= 1 and parents[i - 1].get("k") == "LetS" and parents[i - 1]["pat"].get("k") == "Bind":
+                    # the Result is the value of a local closure (`let slope = |t, y| (self.derivative)(t, y, …);`): every call of that closure must
+                    # propagate it
+                    cid = parents[i - 1]["pat"]["id"]
+                    sites = [(x, ps) for x, ps in walk_with_parents(b["body"]) if x.get("k") == "Call" and "ovl" in x and peel(x["f"]).get("k") == "Local" and peel(x["f"]).get("id") == cid]
+                    def propagated(x, ps):
+                        j, c_ = len(ps) - 1, x
+                        while j >= 0:
+                            q = ps[j]
+                            if q.get("k") == "Try" and q["e"] is c_:
+                                return True
+                            if q.get("k") == "MCall" and q["name"] == "map_err" and q["recv"] is c_ and q["args"] and is_user_error_wrapper(q["args"][0]):
+                                c_, j = q, j - 1
+                                continue
+                            return False
+                        return False
+                    ok = bool(sites) and all(propagated(x, ps) for x, ps in sites)
+                    break
                 if p.get("k") == "MCall" and p["name"] == "map_err" and p["recv"] is cur and p["args"] and is_user_error_wrapper(p["args"][0]):
                     cur = p
                     i -= 1
